@@ -589,12 +589,12 @@ def field_closures(ctx, rid):
     UNNAMED = "Iterator::all(P1,|1|{Option::is_none(C1_0.name)})"
     NMAP = "CompositeIRKind::Named(Iterator::collect(Iterator::map(P1,|1|{%s}))?)" % ANY
     UMAP = "CompositeIRKind::Unnamed(Iterator::collect(Iterator::map(P1,|1|{%s}))?)" % ANY
-    # decision normal form (the question order with the fewest tests): empty? else all-named? else all-unnamed? else the mixed error; the
-    # `unreachable!()` of the source is decided away
+    # decision normal form (the question order with the fewest tests, assignments no field list can produce left open): all-unnamed and all-named
+    # together is exactly the empty list, so the emptiness test itself is decided away, as is the `unreachable!()` of the source
     E = "slice::is_empty(P1)"
     NO = "CompositeIRKind::NoFields"
-    exp_sel = ("if(%s){Ok(%s)}else{if(%s){Ok(%s)}else{if(%s){Ok(%s)}else{Err(TypegenError::InvalidFields(%s))}}}"
-               % (E, NO, NAMED, NMAP, UNNAMED, UMAP, ANY))
+    exp_sel = ("if(%s){Ok(if(%s){%s}else{%s})}else{if(%s){Ok(%s)}else{Err(TypegenError::InvalidFields(%s))}}"
+               % (UNNAMED, NAMED, NO, UMAP, NAMED, NMAP, ANY))
     expect_term(ctx, rid, "kind-selection", fn["sp"], t, exp_sel,
                 "empty -> NoFields; mixed -> Err(InvalidFields); all named -> Named(order-preserving map); all unnamed -> Unnamed(order-preserving map)")
     # CompositeFieldIR::new is a plain constructor
